@@ -118,15 +118,20 @@ func replayMux(t *muxTokens, h []muxCall) (out []byte, err error, panicked any) 
 		{Duration: 258, OffsetX: 131588, OffsetY: 2},
 		{Duration: 3, OffsetY: 197640, BlendMode: mux.BlendNone}}
 	ids := []mux.ChunkID{0, mux.FourCCICCP, mux.FourCCEXIF, mux.FourCCXMP}
+	// the caller keeps ONE FrameOptions variable, fills it in before every AddFrame and scribbles over it afterwards:
+	// the options of a frame are the values at the time of its call
+	var shared mux.FrameOptions
 	for _, c := range h {
 		switch c.Op {
 		case "AddFrame":
 			var o *mux.FrameOptions
 			if optKinds[c.B] != nil {
-				cp := *optKinds[c.B]
-				o = &cp
+				shared = *optKinds[c.B]
+				o = &shared
 			}
-			if e := m.AddFrame(t.data[c.A], o); e != nil {
+			e := m.AddFrame(t.data[c.A], o)
+			shared = mux.FrameOptions{Duration: 4242, OffsetX: 6, OffsetY: 8, BlendMode: mux.BlendNone, DisposeMode: mux.DisposeBackground}
+			if e != nil {
 				return nil, fmt.Errorf("AddFrame: %w", e), nil
 			}
 		case "SetFrameDisposeMode":
